@@ -4,6 +4,7 @@
 // file comes from /repo.
 
 // ============================================================================ std::borrow::Cow
+#[derive(Debug)]
 pub enum Cow<'a, T: 'a> { Borrowed(&'a T), Owned(T) }
 impl<'a, T> Cow<'a, T> {
     pub open spec fn val(self) -> T { match self { Cow::Borrowed(b) => *b, Cow::Owned(o) => o } }
@@ -11,6 +12,15 @@ impl<'a, T> Cow<'a, T> {
 impl<'a, T: Clone> Cow<'a, T> {
     #[verifier::external_body]
     pub fn into_owned(self) -> (r: T) ensures r == self.val() { unimplemented!() }
+}
+impl<'a, T: Clone> Cow<'a, T> {
+    #[verifier::external_body]
+    pub fn as_ref(&self) -> (r: &T) ensures *r == self.val() { unimplemented!() }
+}
+impl<'a, T: Clone> std::ops::Deref for Cow<'a, T> {
+    type Target = T;
+    #[verifier::external_body]
+    fn deref(&self) -> (r: &T) ensures *r == self.val() { unimplemented!() }
 }
 impl<'a, T: PartialEq> PartialEq for Cow<'a, T> {
     #[verifier::external_body]
@@ -287,10 +297,25 @@ impl CBOR {
     // [A-to-cbor-data]
     #[verifier::external_body]
     pub fn to_cbor_data(&self) -> (r: Vec<u8>) ensures r@ == self.enc() { unimplemented!() }
-    // [A-to-tagged-value] CBOR::to_tagged_value(tag, item) = Tagged(tag, item)
+    // [A-to-tagged-value] CBOR::to_tagged_value(tag, item) = Tagged(tag, item.into())
     #[verifier::external_body]
-    pub fn to_tagged_value(tag: u64, item: CBOR) -> (r: CBOR) ensures r == cbor_tagged(tag, item) { unimplemented!() }
+    pub fn to_tagged_value<I: Into<CBOR>>(tag: u64, item: I) -> (r: CBOR)
+        ensures *r.0 matches CBORCase::Tagged(t, inner) && t.value == tag && call_ensures(<I as Into<CBOR>>::into, (item,), inner)
+    { unimplemented!() }
+    // [A-try-from-data] CBOR::try_from_data is the inverse of to_cbor_data on deterministic encodings:
+    // Ok(c) iff data is the dCBOR encoding of c (so the encoding is injective on items)
+    #[verifier::external_body]
+    pub fn try_from_data(data: Vec<u8>) -> (r: Result<CBOR>)
+        ensures
+            r matches Ok(c) ==> c.enc() == data@,
+            forall|c: CBOR| #![trigger c.enc()] c.enc() == data@ ==> r == Ok::<CBOR, Error>(c),
+    { unimplemented!() }
 }
+
+// [A-cbor-enc-inj] the deterministic encoding is injective on CBOR items (consistent with [A-try-from-data])
+pub broadcast axiom fn axiom_cbor_enc_inj(a: CBOR, b: CBOR)
+    requires #[trigger] a.enc() == #[trigger] b.enc()
+    ensures a == b;
 
 // bc_components::tags (values from bc-components 0.19 / the envelope I-D)
 pub mod tags {
@@ -312,6 +337,9 @@ impl EncryptedMessage {
     // [A-enc-has-digest]
     #[verifier::external_body]
     pub fn has_digest(&self) -> (r: bool) ensures r == self.aad_digest().is_some() { unimplemented!() }
+    // [A-enc-opt-digest]
+    #[verifier::external_body]
+    pub fn opt_digest(&self) -> (r: Option<Digest>) ensures r == self.aad_digest() { unimplemented!() }
 }
 impl Clone for EncryptedMessage {
     #[verifier::external_body]
@@ -364,6 +392,12 @@ impl DigestProvider for Compressed {
     #[verifier::external_body]
     fn digest(&self) -> (r: Cow<'_, Digest>) { unimplemented!() }
 }
+// `impl AsRef<Digest>` arguments
+pub trait AsRefDigest { spec fn dg(&self) -> Digest; }
+impl AsRefDigest for Digest { open spec fn dg(&self) -> Digest { *self } }
+impl<'a> AsRefDigest for &'a Digest { open spec fn dg(&self) -> Digest { **self } }
+impl<'a> AsRefDigest for Cow<'a, Digest> { open spec fn dg(&self) -> Digest { self.val() } }
+impl<'a, 'b> AsRefDigest for &'b Cow<'a, Digest> { open spec fn dg(&self) -> Digest { (**self).val() } }
 #[verifier::external_body]
 pub struct SymmetricKey { _p: () }
 #[verifier::external_body]
@@ -373,8 +407,8 @@ impl SymmetricKey {
     pub uninterp spec fn aead_open(&self, m: EncryptedMessage) -> Option<Seq<u8>>;
     // [A-encrypt-with-digest] the message carries exactly the given digest and opens to the plaintext under the same key
     #[verifier::external_body]
-    pub fn encrypt_with_digest(&self, plaintext: Vec<u8>, digest: Digest, nonce: Option<Nonce>) -> (r: EncryptedMessage)
-        ensures r.aad_digest() == Some(digest), self.aead_open(r) == Some(plaintext@)
+    pub fn encrypt_with_digest<D: AsRefDigest>(&self, plaintext: Vec<u8>, digest: D, nonce: Option<Nonce>) -> (r: EncryptedMessage)
+        ensures r.aad_digest() == Some(digest.dg()), self.aead_open(r) == Some(plaintext@)
     { unimplemented!() }
     // [A-decrypt]
     #[verifier::external_body]
